@@ -2496,6 +2496,9 @@ ec_point_check_scalar_mult(ec_point_p point, ec_curve_p curve) {
 static inline int
 ec_point_check_as_pub_key(ec_point_p point, ec_curve_p curve) {
 
+	/* SEC 1 Ver. 2.0: 3.2.2.1 step 1: Q != O. */
+	if (NULL != point && 0 != ec_point_is_at_infinity(point))
+		return (-1);
 	/* Check that Gy^2 ≡ (Gx^3 + a*Gx + b) (mod p). */
 	BN_RET_ON_ERR(ec_point_check_affine(point, curve));
 	
